@@ -185,11 +185,32 @@ def _run(case, modname, devs):
         kw = {}
         if bk_api:
             kw['api'] = bk_api
-        bk = Backend(name_arg, load=case['load'], use_environ=case['use_environ'], **kw)
-        mido.set_backend(bk)
+        if case.get('subclass'):
+            # a Backend object of a subclass that brings further open_*/get_* functions (the documented contract is
+            # "replace all the open_*() and get_*_name() functions in top level mido module")
+            class RichBackend(Backend):
+                def open_virtual_output(self, name=None, **kwargs):
+                    return self.open_output(name, virtual=True, **kwargs)
+
+                def get_extra_names(self, **kwargs):
+                    return sorted(self.get_output_names(**kwargs))
+            bk = RichBackend(name_arg, load=case['load'], use_environ=case['use_environ'], **kw)
+        else:
+            bk = Backend(name_arg, load=case['load'], use_environ=case['use_environ'], **kw)
+        try:
+            mido.set_backend(bk)
+            extras = {nm: getattr(mido, nm, None) for nm in ('open_virtual_output', 'get_extra_names')}
+        finally:
+            for nm in ('open_virtual_output', 'get_extra_names'):
+                vars(mido).pop(nm, None)
         target = mido
         if mido.backend is not bk:
             return [fail('set_backend-object', 'mido.backend is not the Backend object passed to set_backend', **facts)]
+        if case.get('subclass'):
+            for nm, f in extras.items():
+                if getattr(f, '__self__', None) is not bk:
+                    return [fail('set_backend-rebinding', f'mido.{nm} is not bound to the chosen backend object (it is {f!r})',
+                                 **facts)]
     out = []
     # looking at the backend (repr, loaded, name, api) is not "needing" the module
     text = repr(bk) + str(bk.loaded) + str(bk.name) + str(bk.api)
@@ -371,6 +392,14 @@ def grid_shard(rec, shard):
                     c = dict(case)
                     c['prelude'] = pre
                     rec.check(c, distinct=True, sample=False, classes=('history',))
+            if case['entry'] == 'set_backend_obj' and i % 3 == 0:
+                c = dict(case)
+                c['subclass'] = True
+                rec.check(c, distinct=True, sample=False, classes=('backend-subclass',))
+            if case['fn'] == 'open_ioport' and case['port_name'] is None and case['env'] and i % 7:
+                c = dict(case)
+                c['flags'] = {'virtual': True}
+                rec.check(c, distinct=True, sample=False)
             if case['fn'].startswith('open') and i % 7 == 0:
                 c = dict(case)
                 c['flags'] = {'open_input': {'virtual': True, 'callback': 'CB'},
